@@ -108,7 +108,7 @@ def build_spec(params: dict, mapping_yaml: str | None = None):
 
     if not _initialised:
         init()
-    arch = SPECS / ("arch3.yaml" if params["levels"] == 3 else "arch2.yaml")
+    arch = SPECS / ("arch_toll.yaml" if params.get("toll") else "arch3.yaml" if params["levels"] == 3 else "arch2.yaml")
     wl = params["workload"]
     workload = SPECS / ("matmuls.yaml" if wl["kind"] == "matmuls" else "einsum3.yaml")
     files = [str(arch), str(workload)]
